@@ -686,7 +686,7 @@ func runC20UniverseReaderRange(c *Ctx, lo, hi int) {
 			coms = append(coms, Pick(r, []string{"CHF", "USD", "EUR", "AAPL", "BND", "GLD", "MSFT", "VT", "ÖL", "X9"}))
 		}
 		sort.Strings(coms)
-		coms = uniqStrings(coms)
+		coms = c20UniqStrings(coms)
 		u := c20GenUniverseFile(r, coms, c.Thorough(), 6)
 		rd := &c20UReader{data: []byte(u.Text), failAt: -1}
 		kind := Pick(r, []string{"whole", "pieces", "pieces", "one-byte", "eof-with-data", "fails", "fails", "fails", "fails"})
@@ -794,7 +794,7 @@ func runC20UniverseReaderRange(c *Ctx, lo, hi int) {
 	}
 }
 
-func uniqStrings(xs []string) []string {
+func c20UniqStrings(xs []string) []string {
 	var out []string
 	for k, x := range xs {
 		if k == 0 || x != xs[k-1] {
